@@ -50,8 +50,8 @@ Fixpoint window_exact (u : Z) (tr : list wev) : Prop :=
 (* replies carry a list: its length is not negative *)
 Definition op_wf (o : sop) : Prop :=
   match o with
-  | SReqIds _ _ (RIds n) => 0 <= n
-  | SReqIds _ _ RDone => True
+  | SReqIds _ _ _ (RIds n) => 0 <= n
+  | SReqIds _ _ _ RDone => True
   | SReqTxs k j => 0 <= k /\ 0 <= j
   end.
 
@@ -116,8 +116,8 @@ Qed.
 Lemma s_req_ids_state st b req rep st' w res :
   s_req_ids st b req rep = (st', Some w, res) ->
   match res with
-  | ROk n => rep = RIds n /\ st' = mkS n true
-  | RStop => rep = RDone /\ b = true /\ st' = mkS 0 true
+  | ROk n => rep = RIds n /\ st' = mkS n true true
+  | RStop => rep = RDone /\ b = true /\ st' = mkS 0 true false
   | RDown => s_alive st' = false
   | RExceeded | ROther => False
   end.
@@ -133,16 +133,45 @@ Proof.
 Qed.
 
 (* ---- all histories --------------------------------------------------------------- *)
+(* the state a call sees: the peer's Init is delivered first unless the call is early *)
+Definition pre (st : sstate) (o : sop) : sstate :=
+  match o with
+  | SReqIds early _ _ _ => if early then st else deliver_init st
+  | SReqTxs _ _ => deliver_init st
+  end.
+
+Lemma deliver_init_ack st : ack_count (deliver_init st) = ack_count st.
+Proof. unfold deliver_init. destruct (s_inited st); reflexivity. Qed.
+Lemma deliver_init_alive st : s_alive (deliver_init st) = s_alive st.
+Proof. unfold deliver_init. destruct (s_inited st); reflexivity. Qed.
+Lemma pre_ack st o : ack_count (pre st o) = ack_count st.
+Proof. destruct o as [[|] ? ? ?|? ?]; cbn [pre]; auto using deliver_init_ack. Qed.
+Lemma pre_alive st o : s_alive (pre st o) = s_alive st.
+Proof. destruct o as [[|] ? ? ?|? ?]; cbn [pre]; auto using deliver_init_alive. Qed.
+
+Lemma s_step_pre st o : s_step st o =
+  match o with
+  | SReqIds _ b req rep => s_req_ids (pre st o) b req rep
+  | SReqTxs k j => s_req_txs (pre st o) k j
+  end.
+Proof. destruct o; reflexivity. Qed.
+
+Lemma dead_step st o st1 w res : s_alive st = false -> s_step st o = (st1, w, res) ->
+  s_alive st1 = false /\ w = None.
+Proof.
+  intros D E. rewrite s_step_pre in E. pose proof (pre_alive st o) as A. rewrite D in A.
+  destruct o; unfold s_req_ids, s_req_txs in E; rewrite A in E; cbn [negb] in E;
+    repeat match type of E with (if ?c then _ else _) = _ => destruct c end; inversion E; subst; auto.
+Qed.
+
 Lemma dead_no_trace ops : forall st, s_alive st = false -> trace (fst (s_run st ops)) = [].
 Proof.
   induction ops as [|o r IH]; intros st D; [reflexivity|].
   cbn [s_run]. destruct (s_step st o) as [[st1 w] res] eqn:E.
   destruct (s_run st1 r) as [evs st2] eqn:E2. cbn [fst].
-  assert (st1 = st /\ w = None) as [-> ->].
-  { destruct o; cbn [s_step] in E; unfold s_req_ids, s_req_txs in E; rewrite D in E; cbn [negb] in E;
-      repeat match type of E with (if ?c then _ else _) = _ => destruct c end; inversion E; auto. }
+  destruct (dead_step _ _ _ _ _ D E) as [D1 ->].
   unfold trace. cbn [flat_map ev_trace app]. fold (trace evs).
-  specialize (IH st D). rewrite E2 in IH. exact IH.
+  specialize (IH st1 D1). rewrite E2 in IH. exact IH.
 Qed.
 
 Lemma run_window ops : forall st, Forall op_wf ops -> 0 <= ack_count st ->
@@ -155,40 +184,92 @@ Proof.
   destruct (s_run st1 r) as [evs st2] eqn:E2. cbn [fst].
   unfold trace. cbn [flat_map]. fold (trace evs).
   assert (T : evs = fst (s_run st1 r)) by (rewrite E2; reflexivity).
-  destruct o as [b req rep|k j]; cbn [s_step] in E.
+  rewrite s_step_pre in E. pose proof (pre_ack st o) as HA. remember (pre st o) as st0 eqn:Hst0.
+  destruct o as [early b req rep|k j].
   - destruct w as [w|].
     + pose proof (s_req_ids_sent _ _ _ _ _ _ _ E) as (A & R & K & ->).
       pose proof (s_req_ids_state _ _ _ _ _ _ _ E) as S.
-      cbn [ev_trace]. destruct res as [n| | | |].
+      cbn [ev_trace]. rewrite HA in *. destruct res as [n| | | |].
       * destruct S as [-> ->]. cbn [op_wf] in Wo.
-        destruct (IH (mkS n true) Wr) as [I1 I2]; [cbn; lia|]. rewrite E2 in I1, I2. cbn [fst ack_count] in I1, I2.
+        destruct (IH (mkS n true true) Wr) as [I1 I2]; [cbn; lia|]. rewrite E2 in I1, I2. cbn [fst ack_count] in I1, I2.
         cbn [app window_ok window_exact]. rewrite Z.sub_diag. cbn [Z.add]. repeat split; try lia; auto.
       * destruct S.
       * destruct S as (-> & -> & ->).
-        destruct (IH (mkS 0 true) Wr) as [I1 I2]; [cbn; lia|]. rewrite E2 in I1, I2. cbn [fst ack_count] in I1, I2.
+        destruct (IH (mkS 0 true false) Wr) as [I1 I2]; [cbn; lia|]. rewrite E2 in I1, I2. cbn [fst ack_count] in I1, I2.
         cbn [app window_ok window_exact]. repeat split; try lia; auto.
       * cbn [app window_ok window_exact]. rewrite T, (dead_no_trace r st1 S). cbn. repeat split; lia.
       * destruct S.
     + apply s_req_ids_none in E. destruct E as [-> _]. cbn [ev_trace app].
-      specialize (IH st Wr P). rewrite E2 in IH. exact IH.
-  - unfold s_req_txs in E. destruct (s_alive st); cbn [negb] in E; injection E as <- <- <-; cbn [ev_trace app];
-      specialize (IH st Wr P); rewrite E2 in IH; exact IH.
+      rewrite <- HA. assert (P0 : 0 <= ack_count st0) by lia.
+      specialize (IH st0 Wr P0). rewrite E2 in IH. exact IH.
+  - unfold s_req_txs in E. rewrite <- HA. assert (P0 : 0 <= ack_count st0) by lia.
+    destruct (s_alive st0); cbn [negb] in E; injection E as <- <- <-; cbn [ev_trace app];
+      specialize (IH st0 Wr P0); rewrite E2 in IH; exact IH.
 Qed.
 
 (* once a reply was too long every later id request fails without sending *)
 Lemma run_stuck ops : forall st, s_alive st = true -> ack_count st > 65535 ->
   Forall (fun e => let '(o, w, res) := e in
-            match o with SReqIds _ _ _ => w = None /\ res = RExceeded | SReqTxs _ _ => True end)
+            match o with SReqIds _ _ _ _ => w = None /\ res = RExceeded | SReqTxs _ _ => True end)
          (fst (s_run st ops)).
 Proof.
   induction ops as [|o r IH]; intros st A K; [constructor|].
   cbn [s_run]. destruct (s_step st o) as [[st1 w] res] eqn:E.
   destruct (s_run st1 r) as [evs st2] eqn:E2. cbn [fst].
-  destruct o as [b req rep|k j]; cbn [s_step] in E.
-  - rewrite (s_req_ids_overlong st b req rep A K) in E. injection E as <- <- <-.
-    constructor; [auto|]. specialize (IH st A K). rewrite E2 in IH. exact IH.
-  - unfold s_req_txs in E. rewrite A in E. cbn [negb] in E. injection E as <- <- <-.
-    constructor; [auto|]. specialize (IH st A K). rewrite E2 in IH. exact IH.
+  rewrite s_step_pre in E. pose proof (pre_ack st o) as HA. pose proof (pre_alive st o) as HL.
+  remember (pre st o) as st0 eqn:Hst0. rewrite A in HL. rewrite <- HA in K.
+  destruct o as [early b req rep|k j].
+  - rewrite (s_req_ids_overlong st0 b req rep HL K) in E. injection E as <- <- <-.
+    constructor; [auto|]. specialize (IH st0 HL K). rewrite E2 in IH. exact IH.
+  - unfold s_req_txs in E. rewrite HL in E. cbn [negb] in E. injection E as <- <- <-.
+    constructor; [auto|]. specialize (IH st0 HL K). rewrite E2 in IH. exact IH.
+Qed.
+
+(* while the current instance has not had its Init (before the first one, and between a
+   Done and the next Init) the pending acknowledgement is 0: handleDone reset it *)
+Definition gap_inv (st : sstate) : Prop := s_inited st = false -> ack_count st = 0.
+
+Lemma deliver_init_inited st : s_inited (deliver_init st) = true.
+Proof. unfold deliver_init. destruct (s_inited st) eqn:I; [exact I|reflexivity]. Qed.
+
+Lemma gap_inv_pre st o : gap_inv st -> gap_inv (pre st o).
+Proof.
+  intros G. destruct o as [[|] ? ? ?|? ?]; cbn [pre]; auto;
+    intros I; rewrite deliver_init_inited in I; discriminate.
+Qed.
+
+Lemma gap_inv_step st o st1 w res : gap_inv st -> s_step st o = (st1, w, res) -> gap_inv st1.
+Proof.
+  intros G E. rewrite s_step_pre in E. apply (gap_inv_pre st o) in G.
+  remember (pre st o) as st0 eqn:H0. clear H0.
+  destruct o as [early b req rep|k j].
+  - destruct w as [w|].
+    + pose proof (s_req_ids_state _ _ _ _ _ _ _ E) as S. destruct res as [n| | | |].
+      * destruct S as [_ ->]. intros I; discriminate.
+      * destruct S.
+      * destruct S as (_ & _ & ->). intros _. reflexivity.
+      * unfold s_req_ids in E.
+        repeat match type of E with (if ?c then _ else _) = _ => destruct c end; try discriminate;
+          destruct rep; repeat match type of E with (if ?c then _ else _) = _ => destruct c end;
+          inversion E; subst; intros I; discriminate.
+      * destruct S.
+    + apply s_req_ids_none in E. destruct E as [-> _]. exact G.
+  - unfold s_req_txs in E. destruct (negb (s_alive st0)); injection E as <- _ _; exact G.
+Qed.
+
+Lemma gap_inv_run ops : forall st, gap_inv st -> gap_inv (snd (s_run st ops))
+  /\ forall pre_ops o post, ops = pre_ops ++ o :: post -> gap_inv (snd (s_run st pre_ops)).
+Proof.
+  induction ops as [|o r IH]; intros st G.
+  - split; [exact G|]. intros [|? ?] ? ? H; discriminate.
+  - cbn [s_run]. destruct (s_step st o) as [[st1 w] res] eqn:E.
+    destruct (s_run st1 r) as [evs st2] eqn:E2. cbn [snd].
+    pose proof (gap_inv_step _ _ _ _ _ G E) as G1. destruct (IH st1 G1) as [F Pfx]. rewrite E2 in F. split; [exact F|].
+    intros [|o' p'] o2 post H.
+    + cbn. exact G.
+    + cbn [app] in H. injection H as <- H. cbn [s_run]. rewrite E.
+      destruct (s_run st1 p') as [evs' st'] eqn:E3. cbn [snd].
+      specialize (Pfx p' o2 post H). rewrite E3 in Pfx. exact Pfx.
 Qed.
 
 (* ---- outbound side --------------------------------------------------------------- *)
